@@ -116,3 +116,22 @@ def sig_write_sequence(ctx: Ctx, qual: str, handle_param_index: int = 1) -> List
             else:
                 seq.append((norm(v) if v is not None else "?", w))
     return seq
+
+
+def exits_do_not_swallow(ctx: Ctx, rule: str) -> None:
+    """no context manager of the package suppresses exceptions: `__exit__` returns nothing / None / False on every path.  A truthy
+    return value (`return self`, `return True`) makes every `with` block over that object swallow CrcError, PasswordRequired, ... :
+    extraction through such a writer reports success for damaged data or a wrong password."""
+    n = 0
+    for mod in ctx.prog.modules.values():
+        for cls in mod.classes.values():
+            m = cls.methods.get("__exit__")
+            if m is None:
+                continue
+            n += 1
+            bad = [r for r in walk(m.node) if isinstance(r, ast.Return) and r.value is not None
+                   and not (isinstance(r.value, ast.Constant) and (r.value.value is None or r.value.value is False))]
+            ctx.check(not bad, rule, m, bad[0] if bad else m.node, f"{m.qname} returns None/False (exceptions propagate out of the with block)",
+                      f"{m.qname} returns `{norm(bad[0].value) if bad else ''}`: a truthy result of __exit__ suppresses the exception raised inside the with block "
+                      "(CrcError / PasswordRequired / write errors vanish and the caller sees success)", construct=f"{cls.name}.__exit__ result")
+    ctx.floor(rule, n, 2, "__exit__ methods in the package")
